@@ -75,6 +75,17 @@ CLAIMED['C19'] = dict(
     text='Partial by design: (1) in isal_write_gzip_header and isal_write_zlib_header the successful edge of the avail_out size test lies on every path to any store through next_out and any update of next_out/avail_out/total_out (helper calls included through write summaries), so the failing case leaves the stream untouched; (2) every multi-byte header field (gzip MTIME, XLEN, header CRC16; zlib DICTID) is matched through value dependencies to the endian helper that writes and reads it and must have the byte order of RFC 1952 / RFC 1950; the helpers\' own meaning is established from optimised IR (one bswap of the right width or none); (3) flag bits, method, lengths, shifts equal the RFCs and the FCHECK mod-31 arithmetic is present in producer and reader; (4) the readers return only documented status codes. NOT decided: resumable parsing over arbitrary splits, overflow resumption, exact stop position, read bounds on arbitrary bytes.',
     note='Trusts clang IR + sroa, tools/llir.py provenance/dependency analysis, the RFC field table in props/c19.py. The in-tree test only round-trips writer to reader.')
 
+CLAIMED['C10'] = dict(
+    category='other', design_ref='DESIGN.md section 3, C10',
+    technique='static analysis: path/effect analysis over the linked LLVM IR with interprocedural write summaries (backward reachability from error-return edges); switch-arm lint against compiler-evaluated constants',
+    text='Partial by design: (1) in isal_deflate and isal_deflate_stateless every path that ends in the INVALID_FLUSH return or in the return of a non-zero check_level_req() result contains no store through next_out and no update of next_out/avail_out/total_out - callees (C and asm) are covered by write summaries; (2) check_level_req passes level 0, rejects a NULL level_buf, has switch arms exactly {1,2,3} each comparing level_buf_size with ISAL_DEF_LVLn_MIN and rejecting below it, and rejects every other level; (3) ISAL_DEF_LVLn_MIN >= the size the level-n initialiser returns + one token, and the stateless level-1 fallback buffer is >= ISAL_DEF_LVL1_MIN, in the default / 8 KiB / LONGER_HUFFTABLE builds; (4) stored-block and wrapper size constants follow the RFCs. NOT decided: that no call writes beyond avail_out, the exact stored-size bound, counter accounting, termination.',
+    note='Trusts clang IR + sroa, tools/llir.py and the asm write summaries (unknown provenance counts as an output effect).')
+CLAIMED['C11'] = dict(
+    category='other', design_ref='DESIGN.md section 3, C11',
+    technique='static analysis: switch-arm to callee maps with post-dominator join, control-dependence of the success return on a comparison, and value-dependency sets over the linked LLVM IR',
+    text='Partial by design: (1) both update_checksum functions dispatch every gzip-family wrapper flag to crc32_gzip_refl and every zlib-family flag to isal_adler32_bam1, and nothing else; (2) in isal_inflate_stateless and isal_inflate (completion and ISAL_CHECKSUM_CHECK resume) exactly the verifying crc_flag modes reach check_gzip_checksum / check_zlib_checksum (with finalize_adler32 exactly once) and the comparator result flows to the return value; (3) in each comparator ISAL_DECOMP_OK is reachable only through the equal-edge of a comparison whose operands depend on the trailer bytes, state->crc and (gzip) state->total_out, the other edge returns ISAL_INCORRECT_CHECKSUM, and the trailer is read in the RFC byte order; (4) write_trailer stores CRC32|ISIZE little-endian / Adler-32 big-endian for the matching flags. NOT decided: the checksum values (ranges passed to update_checksum) and detection of every corruption.',
+    note='Trusts clang IR + sroa and tools/llir.py. No test of the suite feeds a corrupted stream.')
+
 NOT_APPLICABLE = {
     'C07': 'quantifies over call histories and buffer schedules; resumption correctness depends on run-time counts carried in state, no structural clause beyond the state-enum mirror already checked under C01',
     'C09': 'algebraic property of run-time matrices (invertibility, products over GF(2^8)); nothing in the shape of the code decides it, and loop summarisation over symbolic (m,k) is out of reach of the analyses used',
